@@ -161,7 +161,13 @@ def core_check(pid, props_mod, fail_pids, modes=('walk', 'boundary', 'pairs'), s
             checks_buf.run_mut_stream(run, a, 'C02', vlib.cargo_build('debug'), {'C02'})
             run.trusted.append('BufMut side of C02: guard bytes around every fixed-size destination in the mut stream (M2 write model of C11), '
                                'and the reviewed unsafe-site inventory (Cert/C17)')
-        if pid in ('C01', 'C02', 'C04') and not a.replay:
+        adv_replay = None
+        if a.replay:
+            # a replay file written by the block below names the adv case it came from
+            import re
+            mo = re.search(r'^# hseq adv\s+\(case: (.*)\)\s*$', open(a.replay).read(), re.M)
+            adv_replay = mo.group(1) if mo else None
+        if pid in ('C01', 'C02', 'C04') and (not a.replay or adv_replay):
             # BytesMut under Extend / FromIterator driven by iterators with wrong size hints or panics (adv stream of C17):
             # exactly the yielded items are appended (C01), the region stays inside its allocation (C04), nothing is freed twice
             # or used after free when the iterator panics (C02)
@@ -171,6 +177,8 @@ def core_check(pid, props_mod, fail_pids, modes=('walk', 'boundary', 'pairs'), s
                 tags, d = vlib.kv(ln)
                 if tags and tags[0] == 'oracle-fail' and pid in (tags[1] if len(tags) > 1 else '').split('+'):
                     case = d.get('case', '-').replace('~', ' ')
+                    if adv_replay and case != adv_replay:
+                        continue
                     run.fail('adv:' + case.split()[0][:50], ln[:400], f'# hseq adv   (case: {case})\n')
         if pid == 'C02' and run.tier == 'thorough' and not a.replay:
             asan_support(run, a, [['seq'], ['seq', 'boundary'], ['seq', 'pairs']], 'C02')
